@@ -200,11 +200,50 @@ BayFext(bd, r) ==
     IN VAdd(PlaceVecSegs(Fext(bd.skin, r.skin, <<>>, ROne), size, SkinSegs(bd)),
             VSumFrom(f, 1, Len(bd.stiffs), VZero(size)))
 
+(* ---- the one stiffener internal that IS derived: mass of a 1-D blade stiffener's flange ------------------- *)
+(* A beam of cross-section bf x hf along the line y = ys whose material points sit at distance z in [z0, z0 + bf]
+   (z0 = h/2, h the skin thickness) from the skin's mid-surface, on the stiffener's side, and move with the skin's
+   normal: velocity (u + z w,x, v + z w,y, w).  Kinetic energy 1/2 mu hf INT dx INT dz |velocity|^2; its Hessian has
+   the translational part bf, the coupling bf*df (df = z0 + bf/2, the centroid distance) and the rotary part
+   I2 = INT z^2 dz = bf (z0^2 + z0 bf + bf^2/3).  Being an integral of squares it is positive semi-definite.
+   KF_C13_Blade1DMassCouplingDoubled: the kernel's coupling terms carry 2 bf df, which makes the form indefinite. *)
+B1dMassTerms(bf, I2, cpl) ==
+    LET one == ROne
+    IN << BT(T(U,0,0,one), T(U,0,0,one), bf, bf), BT(T(V,0,0,one), T(V,0,0,one), bf, bf), BT(T(W,0,0,one), T(W,0,0,one), bf, bf),
+          BT(T(U,0,0,one), T(W,1,0,one), cpl, RAbs(cpl)), BT(T(W,1,0,one), T(U,0,0,one), cpl, RAbs(cpl)),
+          BT(T(V,0,0,one), T(W,0,1,one), cpl, RAbs(cpl)), BT(T(W,0,1,one), T(V,0,0,one), cpl, RAbs(cpl)),
+          BT(T(W,1,0,one), T(W,1,0,one), I2, I2), BT(T(W,0,1,one), T(W,0,1,one), I2, I2) >>
+(* Hessian of SUM_t c_t INT_0^a (d^(a) A)(d^(b) B) dx on the line y = ys, in the series of panel description d *)
+LineForm(terms, d, ys) ==
+    LET eta == Eta(d, ys)
+        n == Size(d)
+        entry(r, c) ==
+            LET da == DofOf(d, r)  i == IOf(d, r)  j == JOf(d, r)
+                db == DofOf(d, c)  k == IOf(d, c)  l == JOf(d, c)
+                f(t) == IF terms[t].a.dof = da /\ terms[t].b.dof = db
+                        THEN PScale2(RMul(terms[t].c, RDiv(d.a, Two)),
+                                     PMul2(AxisFactor("int", i, terms[t].a.dx, d.fl[da][1], d.a, RZero, k, terms[t].b.dx, d.fl[db][1], d.a, RZero),
+                                           AxisFactor("pt", j, terms[t].a.dy, d.fl[da][2], d.b, eta, l, terms[t].b.dy, d.fl[db][2], d.b, eta)))
+                        ELSE PairZero
+            IN << RSum(Fn([t \in 1..Len(terms) |-> f(t)[1]])), RSum(Fn([t \in 1..Len(terms) |-> f(t)[2]])) >>
+    IN Fn([r \in 1..n |-> Fn([c \in 1..n |-> entry(r, c)])])
+B1dFlangeMass(bd, sd, dev) ==
+    LET h == Thickness(bd.skin.stack)
+        hf == Thickness(sd.flam.stack)
+        z0 == RDiv(h, Two)
+        df == RAdd(z0, RDiv(sd.bf, Two))
+        I2 == RMul(sd.bf, RAdd(RMul(z0, z0), RAdd(RMul(z0, sd.bf), RDiv(RMul(sd.bf, sd.bf), RFromInt(3)))))
+        k == IF "KF_C13_Blade1DMassCouplingDoubled" \in dev THEN Two ELSE ROne
+        muhf == RMul(bd.skin.mu, hf)
+        sc(x) == RMul(muhf, x)
+    IN LineForm(B1dMassTerms(sc(sd.bf), sc(I2), sc(RMul(k, RMul(sd.bf, df)))), bd.skin, sd.ys)
+
 BayQuantity(bd, r, dev) ==
     CASE r.q = "size"  -> BaySize(bd)
       [] r.q = "place" -> BayPlacement(bd)
       [] r.q \in {"k0", "kG0", "kM"} -> SkinSum(bd, r, dev)
       [] r.q = "fext"  -> BayFext(bd, r)
+      [] r.q = "b1dmass" -> B1dFlangeMass(bd, bd.stiffs[r.k], dev)
 (* Literal property: every request yields its value.
    KF_C13_Blade2DWithoutFlangeRaises: get_size dereferences the flange of every 2-D blade stiffener,
      so a bay holding one without flange (documented as optional) answers no request at all.
@@ -284,6 +323,15 @@ OnlyJoinedBlocks == (MatEvald /\ IsAsm) =>
         IN (IF areq.q \in {"k0", "kT"} THEN ~Joined(adef, a, b) ELSE a # b) => aout[i][j] = PairZero
 (* skin partition independence: the tiles' matrices add up to the uncut skin's, wherever the cuts are *)
 SkinPartitionIndependent == (MatEvald /\ IsBay) => AVals = Vals(SkinUncut(adef, areq, ADeviations))
+(* the derived beam mass is symmetric and positive semi-definite (probes, all 2x2 principal minors).  That the
+   doubled coupling of KF_C13_Blade1DMassCouplingDoubled is indefinite is certified per trace by an exact negative
+   quadratic form (Trace_Assembly, witness vector supplied by the observation) *)
+Minor(M, r, c) == RSub(RMul(M[r][r], M[c][c]), RMul(M[r][c], M[c][r]))
+BeamMassPSD == (Evald /\ IsBay /\ areq.q = "b1dmass") =>
+    LET M == AVals
+    IN /\ MSym(M)
+       /\ \A k \in 1..4 : RSign(Quad(M, AProbe(k, Len(M)))) >= 0
+       /\ \A r, c \in 1..Len(M) : RSign(Minor(M, r, c)) >= 0
 (* tangent of the assembly: symmetric, and at the undeformed state the linear stiffness incl. connections *)
 AsmAtRest == (Evald /\ IsAsm /\ areq.q = "kT") =>
     LET z == Fn([k \in 1..AsmSize(adef) |-> RZero])
